@@ -1124,7 +1124,8 @@ pub fn grid_group(version: u8, n: usize) -> GroupCase {
                         dist: fv(i),
                         children: if i == 0 { [1, 2] } else { [-1, -1] },
                         first_face: i as u16,
-                        num_faces: 1 + i as u16,
+                        // the last node is an empty leaf: no children, no faces
+                        num_faces: if i >= 2 && i + 1 == k(5) { 0 } else { 1 + i as u16 },
                     })
                     .collect(),
             )
